@@ -380,13 +380,13 @@ func main() {
 	}
 	var cases []Case
 	cases = append(cases, Case{Kind: "decode", Stream: "c04/decode"})
-	for i := 0; i < r.Pick(30, 300); i++ {
+	for i := 0; i < r.Pick(60, 1000); i++ {
 		cases = append(cases, Case{Kind: "api", Stream: fmt.Sprintf("c04/api/%d", i)})
 	}
-	for i := 0; i < r.Pick(400, 6000); i++ {
+	for i := 0; i < r.Pick(1500, 30000); i++ {
 		cases = append(cases, Case{Kind: "limbs", Stream: fmt.Sprintf("c04/limbs/%d", i)})
 	}
-	for i := 0; i < r.Pick(60, 1000); i++ {
+	for i := 0; i < r.Pick(200, 4000); i++ {
 		cases = append(cases, Case{Kind: "lanes", Stream: fmt.Sprintf("c04/lanes/%d", i)})
 	}
 	r.Parallel(len(cases), func(i int) { runCase(r, cases[i]) })
